@@ -19,6 +19,7 @@ import FontVerif.Model.SubsetGdef
 import FontVerif.Lemmas.SubsetLayout
 import FontVerif.Lemmas.SubsetLayoutClassDef
 import FontVerif.Lemmas.SubsetGdef
+import FontVerif.Lemmas.SubsetHvar
 set_option linter.unusedVariables false
 namespace FontVerif.C17Layout
 open FontVerif FontVerif.Layout FontVerif.SubsetLayout FontVerif.SubsetGdef
@@ -1221,5 +1222,117 @@ theorem gdef_mark_glyph_sets_preserved {p : LPlan} (hp : PlanOk' p) {g : GdefIn}
                 rfl
             · intro n hn
               exact (coverage_subset_get hp.toPlanOk hcov hsmall hw).2.2 n hn
+
+/-! ### the variation store -/
+
+/-- a readable ItemVariationStore (the HVAR theorems' side conditions): byte data, fewer than 2^15
+region indexes per subtable, all inside the region list, every subtable holds its delta sets -/
+structure StoreOk (st : StoreIn) (axisCount : Nat) (regions : List (List (Int × Int × Int))) : Prop where
+  regs : st.regions = some (axisCount, regions)
+  regLe : regions.length ≤ 65536
+  subOk : ∀ t, SubsetHvar.SubIn.ok t ∈ st.subs →
+    (∀ b ∈ t.data, b < 256) ∧ t.regionIndexes.length < 32768 ∧ SubsetHvar.SubOk t ∧
+    ∀ ri ∈ t.regionIndexes, ri < regions.length
+
+/-- **gdef_store_rows_preserved**: when the GDEF variation store is written, row `i` of the inner map
+of source subtable `outer` (i.e. source row `inner_map[i]`) is row `i` of written subtable number
+`usedBefore inner outer` (= the number of source subtables with a non-empty inner map before it) and
+evaluates — through read-fonts' `compute_delta` — to the same delta at EVERY location, although
+unused regions were pruned, regions renumbered and columns repacked.  (Built from the HVAR store
+theorems `compute_delta_subtable_preserved` / `subsetSubs_get`.) -/
+theorem gdef_store_rows_preserved {st : StoreIn} {axisCount : Nat}
+    {regions : List (List (Int × Int × Int))} (hst : StoreOk st axisCount regions)
+    {inner : List (List Nat)} (hinner : ∀ im ∈ inner, im.length < 65536)
+    {fmt : Nat} {so : SubsetHvar.StoreOut} (h : storeSem st inner = .ok (fmt, so))
+    (outer : Nat) (im : List Nat) (him : inner[outer]? = some im) (i : Nat) (hi : i < im.length)
+    (coords : List Int) :
+    fmt = st.format ∧
+    Tent.computeDelta so.regions (so.subs.map some) (SubsetHvar.usedBefore inner outer) i coords =
+      Tent.computeDelta regions (st.subs.map SubsetHvar.SubIn.toReader) outer im[i] coords := by
+  unfold storeSem at h
+  split at h
+  · cases h
+  · simp only [hst.regs] at h
+    cases hc : SubsetHvar.collectAll st.subs inner [] with
+    | error e => cases e <;> simp [hc] at h
+    | ok refs =>
+      simp only [hc] at h
+      split at h
+      · cases h
+      · cases hs : SubsetHvar.subsetStore axisCount regions st.subs inner with
+        | error e => cases e <;> simp [hs] at h
+        | ok so' =>
+          simp only [hs, pure, Except.pure, Except.ok.injEq, Prod.mk.injEq] at h
+          obtain ⟨e1, e2⟩ := h
+          subst e1; subst e2
+          refine ⟨rfl, ?_⟩
+          obtain ⟨hsorted, hrm, hregs, hsubs⟩ := SubsetHvar.subsetStore_ok hs
+          obtain ⟨t, ov, ht, hv, hout⟩ :=
+            SubsetHvar.subsetSubs_get so'.regionMap inner st.subs so'.subs hsubs outer im him (by omega)
+          have hmem : SubsetHvar.SubIn.ok t ∈ st.subs := List.mem_of_getElem? ht
+          obtain ⟨hb, hric, hsok, hsri⟩ := hst.subOk t hmem
+          rw [hregs]
+          exact SubsetHvar.computeDelta_subtable (SubsetHvar.subsetVarData_ok hv) hb hric
+            (hinner im (List.mem_of_getElem? him)) hsok regions hsorted hrm hst.regLe hsri
+            (so'.subs.map some) (st.subs.map SubsetHvar.SubIn.toReader)
+            (SubsetHvar.usedBefore inner outer) outer
+            (by simp [List.getElem?_map, hout]) (by simp [List.getElem?_map, ht, SubsetHvar.SubIn.toReader])
+            coords i hi
+
+/-- what `remap_variation_indices` / `generate_varstore_inner_maps` compute: the variation index
+`(outer, inner_maps[outer][i])` becomes `(number of used subtables before outer, i)` -/
+def VarPlanSpec (vp : VarPlan) : Prop :=
+  ∀ outer im i, vp.inner[outer]? = some im → i < im.length →
+    vp.vmap.lookup (outer * 65536 + im[i]!) = some (SubsetHvar.usedBefore vp.inner outer * 65536 + i)
+
+/-- **gdef_var_deltas_preserved_partial**: for every variation index `(outer, inner)` the plan retains
+(`inner = inner_maps[outer][i]`): a ligature caret VariationIndex holding it is rewritten to the new
+index `(used subtables before outer, i)`, and read-fonts' `compute_delta` on the written GDEF
+variation store at the NEW index equals `compute_delta` on the original store at the OLD index at
+every location.
+PARTIAL: the link `VarPlanSpec (varPlan p g)` between the plan's `layout_varidx_delta_map` /
+`gdef_varstore_inner_maps` (models `remapVarIdx`, `innerMaps`) and "(used subtables before, position in
+the inner map)" is a hypothesis here; it is not proved in Lean, it is tested (correspondence group
+`gdefplan` against the real plan; oracle `gdef-glyph-data-preserved` compares the deltas of every
+kept caret at sampled locations on the real output). -/
+theorem gdef_var_deltas_preserved_partial {p : LPlan} {g : GdefIn} {o : GdefOut} {st : StoreIn}
+    {axisCount : Nat} {regions : List (List (Int × Int × Int))}
+    (hg : g.varStore = .ok st) (hst : StoreOk st axisCount regions)
+    (hspec : VarPlanSpec (varPlan p g))
+    (hinner : ∀ im ∈ (varPlan p g).inner, im.length < 65536)
+    (h : subsetGdefSem p g = .ok o) {fmt : Nat} {so : SubsetHvar.StoreOut}
+    (ho : o.varStore = some (fmt, so))
+    (outer : Nat) (im : List Nat) (him : (varPlan p g).inner[outer]? = some im) (i : Nat)
+    (hi : i < im.length) (coord : Nat) (coords : List Int) :
+    let new := SubsetHvar.usedBefore (varPlan p g).inner outer * 65536 + i
+    wantCaret (varPlan p g).vmap (.f3 coord (some (.varIdx outer im[i]!))) =
+      some (.f3 coord (be32 new ++ be16 0x8000)) ∧
+    Tent.computeDelta so.regions (so.subs.map some) (new / 65536) (new % 65536) coords =
+      Tent.computeDelta regions (st.subs.map SubsetHvar.SubIn.toReader) outer im[i]! coords := by
+  intro new
+  have hf := (gdef_fields h).2.2.2.2.2.1
+  unfold storePart at hf
+  have h3 : g.minor ≥ 3 := by
+    apply Classical.byContradiction
+    intro hn
+    simp only [hn, ↓reduceIte, pure, Except.pure, Except.ok.injEq] at hf
+    rw [ho] at hf; cases hf
+  simp only [h3, ↓reduceIte, hg, ho] at hf
+  rcases optSem_ok hf with ⟨e1, _⟩ | ⟨x, e1, hh⟩
+  · cases e1
+  · injection e1 with e1; subst e1
+    rcases hh with ⟨_, e2⟩ | ⟨y, hy, e2⟩
+    · cases e2
+    · injection e2 with e2; subst e2
+      have hrows := gdef_store_rows_preserved hst hinner hy outer im him i hi coords
+      have hlt : i < 65536 := by have := hinner im (List.mem_of_getElem? him); omega
+      have e1 : new / 65536 = SubsetHvar.usedBefore (varPlan p g).inner outer := by
+        simp only [new]; omega
+      have e2 : new % 65536 = i := by simp only [new]; omega
+      have eg : im[i]! = im[i] := by simp [hi]
+      refine ⟨?_, ?_⟩
+      · simp only [wantCaret, hspec outer im i him hi]
+        rfl
+      · rw [e1, e2, eg]; exact hrows.2
 
 end FontVerif.C17Layout
